@@ -1889,6 +1889,16 @@ func (k *Kernel) handleReplayedHeader(
 		}
 	}
 
+	// The signatures in the proof are only meaningful against the validator set
+	// that the chain prescribes for this height, which is the voting view's set.
+	// Without this check, a header and proof signed by any other set of keys
+	// would verify against the keys it carries itself.
+	if !header.ValidatorSet.Equal(s.Voting.ValidatorSet) {
+		return tmelink.ReplayedHeaderValidationError{
+			Err: errors.New("validator set on replayed header differs from expected validator set for height"),
+		}
+	}
+
 	if proof.Round < s.Voting.Round {
 		// There are some edge cases we haven't handled yet with going backwards.
 		// It is a valid case when we saw >2/3 total precommits
